@@ -61,6 +61,15 @@ func (rm *ResponseManager) processRequests(p peer.ID, requests []gsmsg.GraphSync
 	defer messageSpan.End()
 
 	for _, request := range requests {
+		if response, ok := rm.inProgressResponses[request.ID()]; ok && response.peer != p {
+			// the request ID is in use by a response served to another peer:
+			// that response must not be cancelled, updated or replaced
+			log.Warnf("peer %s sent a %s request for request ID %s which is in use by peer %s", p, request.Type(), request.ID().String(), response.peer)
+			if request.Type() == graphsync.RequestTypeNew {
+				rm.rejectRequest(p, request)
+			}
+			continue
+		}
 		switch request.Type() {
 		case graphsync.RequestTypeCancel:
 			_ = rm.abortRequest(ctx, request.ID(), ipldutil.ContextCancelError{})
@@ -73,6 +82,30 @@ func (rm *ResponseManager) processRequests(p peer.ID, requests []gsmsg.GraphSync
 		}
 	}
 }
+
+// rejectRequest refuses a new request without tracking any state for it
+func (rm *ResponseManager) rejectRequest(p peer.ID, request gsmsg.GraphSyncRequest) {
+	subscriber := &subscriber{
+		p:                     p,
+		request:               request,
+		requestCloser:         untrackedRequestCloser{},
+		blockSentListeners:    rm.blockSentListeners,
+		completedListeners:    rm.completedListeners,
+		networkErrorListeners: rm.networkErrorListeners,
+		connManager:           rm.connManager,
+	}
+	responseStream := rm.responseAssembler.NewStream(rm.ctx, p, request.ID(), subscriber)
+	_ = responseStream.Transaction(func(rb responseassembler.ResponseBuilder) error {
+		rb.FinishWithError(graphsync.RequestRejected)
+		return nil
+	})
+}
+
+// untrackedRequestCloser is the RequestCloser of responses the manager holds no state for
+type untrackedRequestCloser struct{}
+
+func (untrackedRequestCloser) TerminateRequest(graphsync.RequestID)      {}
+func (untrackedRequestCloser) CloseWithNetworkError(graphsync.RequestID) {}
 
 // processUpdate handles a graphsync update message
 func (rm *ResponseManager) processUpdate(ctx context.Context, requestID graphsync.RequestID, update gsmsg.GraphSyncRequest) {
